@@ -4,12 +4,21 @@ import (
 	"fmt"
 	"go/token"
 	"go/types"
-	"strings"
 
 	"golang.org/x/tools/go/ssa"
 )
 
-// Uninterpreted cryptography: hash objects, HMAC, aescts, rand.
+// Uninterpreted cryptography.
+//
+//   hash / HMAC objects      H_alg_n(data), HMAC_alg_k_n(key, data)      one UF per algorithm and operand lengths
+//   block ciphers            E_alg_k(key, block), D_alg_k(key, block)    with the instantiated axioms D(k,E(k,x))=x, E(k,D(k,x))=x
+//   CBC mode                 real xor chaining over E / D (cipher.NewCBCEncrypter/Decrypter + CryptBlocks)
+//   rc4                      dst = src xor RC4KS_k_n(key)
+//   pbkdf2                   PBKDF2_alg_len_p_s(password, salt, iter)
+//   n-fold (stub set nfolduf)NFOLD_n_m(data)
+//
+// The same symbols are used by the specification-side primitives of package zzverif, so that
+// "code = RFC reference" is decided for every interpretation of the primitives.
 
 type HashObj struct {
 	alg  string
@@ -17,11 +26,33 @@ type HashObj struct {
 	data []*Term
 }
 
+type BlockObj struct {
+	alg string
+	key []*Term
+}
+
+type CBCObj struct {
+	blk  *BlockObj
+	enc  bool
+	prev []*Term
+}
+
+type RC4Obj struct {
+	key []*Term
+	pos int
+}
+
 var digestSize = map[string]int{"md4": 16, "md5": 16, "sha1": 20, "sha256": 32, "sha384": 48}
-var blockSize = map[string]int{"md4": 64, "md5": 64, "sha1": 64, "sha256": 64, "sha384": 128}
+var hashBlockSize = map[string]int{"md4": 64, "md5": 64, "sha1": 64, "sha256": 64, "sha384": 128}
+var cipherBlockSize = map[string]int{"aes": 16, "des3": 8}
 
 var fakePkg = types.NewPackage("gosym", "gosym")
-var hashType = types.NewNamed(types.NewTypeName(token.NoPos, fakePkg, "Hash", nil), types.NewStruct(nil, nil), nil)
+
+func fakeNamed(name string) *types.Named {
+	return types.NewNamed(types.NewTypeName(token.NoPos, fakePkg, name, nil), types.NewStruct(nil, nil), nil)
+}
+
+var hashType, blockType, cbcType, rc4Type = fakeNamed("Hash"), fakeNamed("Block"), fakeNamed("CBC"), fakeNamed("RC4")
 
 func catBytes(bs []*Term) *Term {
 	if len(bs) == 0 {
@@ -57,18 +88,30 @@ func ufBytes(name string, outBytes int, operands ...[]*Term) []*Term {
 
 func sliceBytes(s *SliceV) []*Term {
 	out := make([]*Term, s.len)
+	if s.len == 0 {
+		return out
+	}
+	el := elemsOf(s)
 	for i := range out {
-		out[i] = elemsOf(s)[s.off+i].(*Term)
+		out[i] = el[s.off+i].(*Term)
 	}
 	return out
 }
 
 func (r *Run) bytesToSlice(bs []*Term) *SliceV {
 	s := r.makeSlice(types.Typ[types.Uint8], len(bs), len(bs))
+	el := elemsOf(s)
 	for i, b := range bs {
-		elemsOf(s)[i] = b
+		el[i] = b
 	}
 	return s
+}
+
+func setBytes(s *SliceV, bs []*Term) {
+	el := elemsOf(s)
+	for i, b := range bs {
+		el[s.off+i] = b
+	}
 }
 
 func algOfFunc(v Value) string {
@@ -95,6 +138,87 @@ func algOfFunc(v Value) string {
 	return ""
 }
 
+func (r *Run) errNew(fr *Frame, msg string) Value {
+	en := r.eng.prog.ImportedPackage("errors").Func("New")
+	return r.callFn(fr, en, []Value{concStr(msg)}, lbl("errors.New"))
+}
+
+func (r *Run) hmacBytes(alg string, key, data []*Term) []*Term {
+	d := ufBytes("HMAC_"+alg, digestSize[alg], key, data)
+	r.macAxioms("HMAC_"+alg, alg, append(append([]*Term{}, key...), data...), len(key), d)
+	return d
+}
+
+func (r *Run) hashBytes(alg string, data []*Term) []*Term {
+	d := ufBytes("H_"+alg, digestSize[alg], data)
+	r.macAxioms("H_"+alg, alg, data, 0, d)
+	return d
+}
+
+// blockApply: E/D of one block with the bijection axiom instantiated on this application.
+func (r *Run) blockApply(alg string, enc bool, key, block []*Term) []*Term {
+	e, d := "E_"+alg, "D_"+alg
+	if !enc {
+		e, d = d, e
+	}
+	bs := cipherBlockSize[alg]
+	out := ufBytes(e, bs, key, block)
+	back := ufBytes(d, bs, key, out)
+	r.addPC(Eq(catBytes(back), catBytes(block)))
+	if enc && r.inst.stubSet["idealmac"] {
+		// idealised cipher: encryptions under different (effective) keys or of different blocks differ
+		kk := key
+		if alg == "des3" { // DES ignores the parity bit of every key byte
+			kk = make([]*Term, len(key))
+			for i, b := range key {
+				kk[i] = Extract(b, 7, 1)
+			}
+		}
+		r.injective("E_"+alg, append(append([]*Term{}, kk...), block...), out)
+	}
+	return out
+}
+
+type injApp struct {
+	fam  string
+	args []*Term
+	out  []*Term
+}
+
+// injective (idealised model only): two applications of the same symbol with operands of the same
+// length give equal results only for equal operands.
+func (r *Run) injective(fam string, args, out []*Term) {
+	ca, co := catBytesAny(args), catBytes(out)
+	for _, o := range r.injApps {
+		if o.fam != fam || len(o.args) != len(args) {
+			continue
+		}
+		oa, oo := catBytesAny(o.args), catBytes(o.out)
+		if oo == co || oa.w != ca.w {
+			continue
+		}
+		r.addPC(Or(Not(Eq(oo, co)), Eq(oa, ca)))
+	}
+	r.injApps = append(r.injApps, injApp{fam, args, out})
+}
+
+// catBytesAny concatenates terms of arbitrary widths.
+func catBytesAny(ts []*Term) *Term {
+	t := ts[0]
+	for _, b := range ts[1:] {
+		t = Concat(t, b)
+	}
+	return t
+}
+
+func xorBytes(a, b []*Term) []*Term {
+	out := make([]*Term, len(a))
+	for i := range a {
+		out[i] = BXor(a[i], b[i])
+	}
+	return out
+}
+
 func (e *Engine) registerCrypto() {
 	in := e.intrinsics
 	for fn, alg := range map[string]string{"crypto/md5.New": "md5", "crypto/sha1.New": "sha1", "crypto/sha256.New": "sha256", "crypto/sha512.New384": "sha384", "golang.org/x/crypto/md4.New": "md4"} {
@@ -117,11 +241,9 @@ func (e *Engine) registerCrypto() {
 		pre := a[1].(*SliceV)
 		var d []*Term
 		if h.key != nil {
-			d = ufBytes("HMAC_"+h.alg, digestSize[h.alg], h.key, h.data)
-			r.macAxioms("HMAC_"+h.alg, h.alg, append(append([]*Term{}, h.key...), h.data...), len(h.key), d)
+			d = r.hmacBytes(h.alg, h.key, h.data)
 		} else {
-			d = ufBytes("H_"+h.alg, digestSize[h.alg], h.data)
-			r.macAxioms("H_"+h.alg, h.alg, h.data, 0, d)
+			d = r.hashBytes(h.alg, h.data)
 		}
 		var out []*Term
 		if pre.arr != nil {
@@ -134,11 +256,11 @@ func (e *Engine) registerCrypto() {
 		return BVi(int64(digestSize[a[0].(*HashObj).alg]), 64)
 	}
 	in["gosym.Hash.BlockSize"] = func(r *Run, fr *Frame, cc *ssa.CallCommon, a []Value) Value {
-		return BVi(int64(blockSize[a[0].(*HashObj).alg]), 64)
+		return BVi(int64(hashBlockSize[a[0].(*HashObj).alg]), 64)
 	}
 	in["gosym.Hash.Reset"] = func(r *Run, fr *Frame, cc *ssa.CallCommon, a []Value) Value {
 		a[0].(*HashObj).data = nil
-		return nil
+		return TupleV{}
 	}
 	in["crypto/rand.Read"] = func(r *Run, fr *Frame, cc *ssa.CallCommon, a []Value) Value {
 		s := a[0].(*SliceV)
@@ -154,93 +276,205 @@ func (e *Engine) registerCrypto() {
 		r.randLog = nil
 		return s
 	}
-	// aescts as an uninterpreted pair with the length behaviour of the real code
-	aes := "github.com/jcmturner/aescts/v2."
-	errNew := func(r *Run, fr *Frame, msg string) Value {
-		en := r.eng.prog.ImportedPackage("errors").Func("New")
-		return r.callFn(fr, en, []Value{concStr(msg)}, lbl("aescts"))
+
+	// ---- block ciphers and CBC ---------------------------------------------------------------
+	newBlock := func(alg string, okLens ...int) intrinsic {
+		return func(r *Run, fr *Frame, cc *ssa.CallCommon, a []Value) Value {
+			key := sliceBytes(a[0].(*SliceV))
+			ok := false
+			for _, l := range okLens {
+				if len(key) == l {
+					ok = true
+				}
+			}
+			if !ok {
+				return TupleV{&IfaceV{}, r.errNew(fr, "crypto/"+alg+": invalid key size")}
+			}
+			return TupleV{&IfaceV{t: blockType, v: &BlockObj{alg: alg, key: append([]*Term{}, key...)}}, &IfaceV{}}
+		}
 	}
-	in[aes+"Encrypt"] = func(r *Run, fr *Frame, cc *ssa.CallCommon, a []Value) Value {
-		key, iv, pt := sliceBytes(a[0].(*SliceV)), sliceBytes(a[1].(*SliceV)), sliceBytes(a[2].(*SliceV))
-		if len(key) != 16 && len(key) != 24 && len(key) != 32 {
-			return TupleV{r.bytesToSlice(nil), r.bytesToSlice(nil), errNew(r, fr, "error creating cipher")}
-		}
-		n := len(pt)
-		if n < 16 {
-			n = 16
-		}
-		ct := ufBytes("AESCTS_E", n, key, iv, pt)
-		niv := ufBytes("AESCTS_IV", 16, key, iv, pt)
-		r.axiomDE(key, iv, pt, ct)
-		return TupleV{r.bytesToSlice(niv), r.bytesToSlice(ct), &IfaceV{}}
+	in["crypto/aes.NewCipher"] = newBlock("aes", 16, 24, 32)
+	in["crypto/des.NewTripleDESCipher"] = newBlock("des3", 24)
+	in["gosym.Block.BlockSize"] = func(r *Run, fr *Frame, cc *ssa.CallCommon, a []Value) Value {
+		return BVi(int64(cipherBlockSize[a[0].(*BlockObj).alg]), 64)
 	}
-	in[aes+"Decrypt"] = func(r *Run, fr *Frame, cc *ssa.CallCommon, a []Value) Value {
-		key, iv, ct := sliceBytes(a[0].(*SliceV)), sliceBytes(a[1].(*SliceV)), sliceBytes(a[2].(*SliceV))
-		if len(ct) < 16 {
-			return TupleV{r.bytesToSlice(nil), errNew(r, fr, "ciphertext is not large enough")}
+	blockOp := func(enc bool) intrinsic {
+		return func(r *Run, fr *Frame, cc *ssa.CallCommon, a []Value) Value {
+			b := a[0].(*BlockObj)
+			bs := cipherBlockSize[b.alg]
+			dst, src := a[1].(*SliceV), a[2].(*SliceV)
+			if src.len < bs || dst.len < bs {
+				r.mustNot(True, "panic", lbl("cipher.Block"), "input/output not full block")
+			}
+			setBytes(dst, r.blockApply(b.alg, enc, b.key, sliceBytes(src)[:bs]))
+			return TupleV{}
 		}
-		if len(key) != 16 && len(key) != 24 && len(key) != 32 {
-			return TupleV{&SliceV{}, errNew(r, fr, "error creating cipher")}
-		}
-		pt := ufBytes("AESCTS_D", len(ct), key, iv, ct)
-		// instantiated bijection axiom: E(k, iv, D(k, iv, c)) = c
-		back := ufBytes("AESCTS_E", len(ct), key, iv, pt)
-		r.addPC(Eq(catBytes(back), catBytes(ct)))
-		return TupleV{r.bytesToSlice(pt), &IfaceV{}}
 	}
-	// spec-side primitives exposed to harnesses (same symbols)
+	in["gosym.Block.Encrypt"] = blockOp(true)
+	in["gosym.Block.Decrypt"] = blockOp(false)
+	newCBC := func(enc bool) intrinsic {
+		return func(r *Run, fr *Frame, cc *ssa.CallCommon, a []Value) Value {
+			bi := a[0].(*IfaceV)
+			if bi.t == nil {
+				r.mustNot(True, "nil", lbl("cipher.NewCBC"), "nil cipher.Block")
+			}
+			b := bi.v.(*BlockObj)
+			iv := sliceBytes(a[1].(*SliceV))
+			if len(iv) != cipherBlockSize[b.alg] {
+				r.mustNot(True, "panic", lbl("cipher.NewCBC"), "cipher.NewCBC: IV length must equal block size")
+			}
+			return &IfaceV{t: cbcType, v: &CBCObj{blk: b, enc: enc, prev: append([]*Term{}, iv...)}}
+		}
+	}
+	in["crypto/cipher.NewCBCEncrypter"] = newCBC(true)
+	in["crypto/cipher.NewCBCDecrypter"] = newCBC(false)
+	in["gosym.CBC.BlockSize"] = func(r *Run, fr *Frame, cc *ssa.CallCommon, a []Value) Value {
+		return BVi(int64(cipherBlockSize[a[0].(*CBCObj).blk.alg]), 64)
+	}
+	in["gosym.CBC.CryptBlocks"] = func(r *Run, fr *Frame, cc *ssa.CallCommon, a []Value) Value {
+		c := a[0].(*CBCObj)
+		bs := cipherBlockSize[c.blk.alg]
+		dst, src := a[1].(*SliceV), a[2].(*SliceV)
+		if src.len%bs != 0 {
+			r.mustNot(True, "panic", lbl("cipher.CryptBlocks"), "crypto/cipher: input not full blocks")
+		}
+		if dst.len < src.len {
+			r.mustNot(True, "panic", lbl("cipher.CryptBlocks"), "crypto/cipher: output smaller than input")
+		}
+		inb := append([]*Term{}, sliceBytes(src)...) // dst may alias src
+		out := make([]*Term, 0, len(inb))
+		for i := 0; i+bs <= len(inb); i += bs {
+			blk := inb[i : i+bs]
+			if c.enc {
+				ct := r.blockApply(c.blk.alg, true, c.blk.key, xorBytes(blk, c.prev))
+				out = append(out, ct...)
+				c.prev = ct
+			} else {
+				pt := xorBytes(r.blockApply(c.blk.alg, false, c.blk.key, blk), c.prev)
+				out = append(out, pt...)
+				c.prev = append([]*Term{}, blk...)
+			}
+		}
+		setBytes(dst, out)
+		return TupleV{}
+	}
+
+	// ---- rc4 ------------------------------------------------------------------------------------
+	in["crypto/rc4.NewCipher"] = func(r *Run, fr *Frame, cc *ssa.CallCommon, a []Value) Value {
+		key := sliceBytes(a[0].(*SliceV))
+		if len(key) < 1 || len(key) > 256 {
+			return TupleV{&PtrV{}, r.errNew(fr, "crypto/rc4: invalid key size")}
+		}
+		o := r.newObj(rc4Type, &RC4Obj{key: append([]*Term{}, key...)}, "rc4")
+		return TupleV{&PtrV{obj: o}, &IfaceV{}}
+	}
+	in["(*crypto/rc4.Cipher).XORKeyStream"] = func(r *Run, fr *Frame, cc *ssa.CallCommon, a []Value) Value {
+		c := a[0].(*PtrV).obj.val.(*RC4Obj)
+		dst, src := a[1].(*SliceV), a[2].(*SliceV)
+		if src.len == 0 {
+			return TupleV{}
+		}
+		if dst.len < src.len {
+			r.mustNot(True, "panic", lbl("rc4.XORKeyStream"), "crypto/rc4: output smaller than input")
+		}
+		ks := ufBytes(fmt.Sprintf("RC4KS_%d", c.pos+src.len), c.pos+src.len, c.key)[c.pos:]
+		c.pos += src.len
+		setBytes(dst, xorBytes(sliceBytes(src), ks))
+		return TupleV{}
+	}
+	in["(*crypto/rc4.Cipher).Reset"] = func(r *Run, fr *Frame, cc *ssa.CallCommon, a []Value) Value { return TupleV{} }
+
+	// ---- pbkdf2 -----------------------------------------------------------------------------------
+	pb := func(r *Run, fr *Frame, cc *ssa.CallCommon, a []Value) Value {
+		pw, salt := sliceBytes(a[0].(*SliceV)), sliceBytes(a[1].(*SliceV))
+		iter := a[2].(*Term)
+		kl := int(r.concretise(a[3].(*Term), "pbkdf2 key length"))
+		alg := algOfFunc(a[4])
+		return r.bytesToSlice(pbkdf2Bytes(alg, pw, salt, iter, kl))
+	}
+	in["golang.org/x/crypto/pbkdf2.Key"] = pb
+	in["github.com/jcmturner/gofork/x/crypto/pbkdf2.Key64"] = pb
+	in["github.com/jcmturner/gofork/x/crypto/pbkdf2.Key"] = pb
+
+	// ---- specification-side primitives exposed to harnesses (same symbols) --------------------------
 	in[rtPkg+".HMAC"] = func(r *Run, fr *Frame, cc *ssa.CallCommon, a []Value) Value {
 		alg, _ := a[0].(*StrV).Concrete()
-		k, dt := sliceBytes(a[1].(*SliceV)), sliceBytes(a[2].(*SliceV))
-		d := ufBytes("HMAC_"+alg, digestSize[alg], k, dt)
-		r.macAxioms("HMAC_"+alg, alg, append(append([]*Term{}, k...), dt...), len(k), d)
-		return r.bytesToSlice(d)
+		return r.bytesToSlice(r.hmacBytes(alg, sliceBytes(a[1].(*SliceV)), sliceBytes(a[2].(*SliceV))))
 	}
 	in[rtPkg+".Hash"] = func(r *Run, fr *Frame, cc *ssa.CallCommon, a []Value) Value {
 		alg, _ := a[0].(*StrV).Concrete()
-		dt := sliceBytes(a[1].(*SliceV))
-		d := ufBytes("H_"+alg, digestSize[alg], dt)
-		r.macAxioms("H_"+alg, alg, dt, 0, d)
-		return r.bytesToSlice(d)
+		return r.bytesToSlice(r.hashBytes(alg, sliceBytes(a[1].(*SliceV))))
 	}
-	in[rtPkg+".AESCTSEncrypt"] = func(r *Run, fr *Frame, cc *ssa.CallCommon, a []Value) Value {
-		key, iv, pt := sliceBytes(a[0].(*SliceV)), sliceBytes(a[1].(*SliceV)), sliceBytes(a[2].(*SliceV))
-		n := len(pt)
-		if n < 16 {
-			n = 16
+	specBlock := func(enc bool) intrinsic {
+		return func(r *Run, fr *Frame, cc *ssa.CallCommon, a []Value) Value {
+			alg, _ := a[0].(*StrV).Concrete()
+			key, blk := sliceBytes(a[1].(*SliceV)), sliceBytes(a[2].(*SliceV))
+			if len(blk) != cipherBlockSize[alg] {
+				endPath("engine", "zzverif.Block%v: block of %d bytes", enc, len(blk))
+			}
+			return r.bytesToSlice(r.blockApply(alg, enc, key, blk))
 		}
-		ct := ufBytes("AESCTS_E", n, key, iv, pt)
-		r.axiomDE(key, iv, pt, ct)
-		return r.bytesToSlice(ct)
 	}
-	in[rtPkg+".AESCTSDecrypt"] = func(r *Run, fr *Frame, cc *ssa.CallCommon, a []Value) Value {
-		key, iv, ct := sliceBytes(a[0].(*SliceV)), sliceBytes(a[1].(*SliceV)), sliceBytes(a[2].(*SliceV))
-		pt := ufBytes("AESCTS_D", len(ct), key, iv, ct)
-		back := ufBytes("AESCTS_E", len(ct), key, iv, pt)
-		r.addPC(Eq(catBytes(back), catBytes(ct)))
-		return r.bytesToSlice(pt)
+	in[rtPkg+".BlockEnc"] = specBlock(true)
+	in[rtPkg+".BlockDec"] = specBlock(false)
+	in[rtPkg+".RC4"] = func(r *Run, fr *Frame, cc *ssa.CallCommon, a []Value) Value {
+		key, data := sliceBytes(a[0].(*SliceV)), sliceBytes(a[1].(*SliceV))
+		if len(data) == 0 {
+			return r.bytesToSlice(nil)
+		}
+		ks := ufBytes(fmt.Sprintf("RC4KS_%d", len(data)), len(data), key)
+		return r.bytesToSlice(xorBytes(data, ks))
 	}
-	// summary: n-fold as an uninterpreted function (its correctness is a separate obligation)
-	in["github.com/jcmturner/gokrb5/v8/crypto/rfc3961.Nfold"] = func(r *Run, fr *Frame, cc *ssa.CallCommon, a []Value) Value {
+	in[rtPkg+".PBKDF2"] = func(r *Run, fr *Frame, cc *ssa.CallCommon, a []Value) Value {
+		alg, _ := a[0].(*StrV).Concrete()
+		kl := int(r.concretise(a[4].(*Term), "pbkdf2 key length"))
+		return r.bytesToSlice(pbkdf2Bytes(alg, sliceBytes(a[1].(*SliceV)), sliceBytes(a[2].(*SliceV)), a[3].(*Term), kl))
+	}
+	nfold := func(r *Run, fr *Frame, cc *ssa.CallCommon, a []Value) Value {
 		m := sliceBytes(a[0].(*SliceV))
 		n := int(r.concretise(a[1].(*Term), "nfold n"))
-		return r.bytesToSlice(ufBytes(fmt.Sprintf("NFOLD_%d", n), n/8, m))
+		out := ufBytes(fmt.Sprintf("NFOLD_%d", n), n/8, m)
+		if r.inst.stubSet["idealmac"] && len(m) > 0 {
+			r.injective(fmt.Sprintf("NFOLD_%d", n), m, out)
+		}
+		return r.bytesToSlice(out)
 	}
+	des3rtk := func(r *Run, fr *Frame, cc *ssa.CallCommon, a []Value) Value {
+		in := sliceBytes(a[0].(*SliceV))
+		out := ufBytes("DES3RTK", 24, in)
+		if r.inst.stubSet["idealmac"] && len(in) > 0 {
+			// distinct seeds give keys that differ in non-parity bits (true except for the 16 weak-key corrections)
+			eff := make([]*Term, len(out))
+			for i, b := range out {
+				eff[i] = Extract(b, 7, 1)
+			}
+			r.injective("DES3RTK", in, eff)
+		}
+		return r.bytesToSlice(out)
+	}
+	in["des3rtkuf:"+rtPkg+".DES3RandomToKey"] = des3rtk
+	in["des3rtkuf:github.com/jcmturner/gokrb5/v8/crypto/rfc3961.DES3RandomToKey"] = des3rtk
+	in[rtPkg+".Nfold"] = nfold
+	// summary of the real n-fold by the same symbol (its own correctness is a separate obligation, C08)
+	in["nfolduf:github.com/jcmturner/gokrb5/v8/crypto/rfc3961.Nfold"] = nfold
 }
 
-var _ = strings.Contains
-
-// instantiated axiom D(k, iv, E(k, iv, p)) = p (for |p| >= 16, where E is length preserving)
-func (r *Run) axiomDE(key, iv, pt, ct []*Term) {
-	if len(pt) < 16 {
-		return
+func pbkdf2Bytes(alg string, pw, salt []*Term, iter *Term, kl int) []*Term {
+	name := fmt.Sprintf("PBKDF2_%s_%d_%d_%d", alg, kl, len(pw), len(salt))
+	var args []*Term
+	if len(pw) > 0 {
+		args = append(args, catBytes(pw))
 	}
-	back := ufBytes("AESCTS_D", len(ct), key, iv, ct)
-	r.addPC(Eq(catBytes(back), catBytes(pt)))
+	if len(salt) > 0 {
+		args = append(args, catBytes(salt))
+	}
+	args = append(args, iter)
+	return splitBytes(UF(name, kl*8, args...))
 }
 
-// Idealised MAC/hash: applications of the same function agree on their (shortest used) tag prefix
-// only if their operands are identical.  Instantiated pairwise on the applications that occur.
+// Idealised MAC/hash (stub set "idealmac"): applications of the same function agree on their
+// (shortest used) tag prefix only if their operands are identical.  Instantiated pairwise on the
+// applications that occur.
 type macApp struct {
 	fam    string
 	klen   int
@@ -251,6 +485,9 @@ type macApp struct {
 var tagBytes = map[string]int{"sha1": 12, "md5": 16, "md4": 16, "sha256": 16, "sha384": 24}
 
 func (r *Run) macAxioms(fam, alg string, args []*Term, klen int, digest []*Term) {
+	if !r.inst.stubSet["idealmac"] {
+		return
+	}
 	tb := tagBytes[alg]
 	me := macApp{fam, klen, args, digest}
 	for _, o := range r.macApps {
